@@ -305,7 +305,10 @@ func ruleC15Wrappers(c *Ctx, r *R) {
 		bad := ""
 		instrs(fn, func(b *ssa.BasicBlock, i int, in ssa.Instruction) {
 			if ia, ok := in.(*ssa.IndexAddr); ok {
-				bad = "indexes " + path(ia.X) + " directly"
+				// (the slot of a variadic argument list - iterator.Join(a, b) - is not element storage)
+				if al, isAl := ia.X.(*ssa.Alloc); !isAl || al.Comment != "varargs" {
+					bad = "indexes " + path(ia.X) + " directly"
+				}
 			}
 			if ia, ok := in.(*ssa.Index); ok {
 				bad = "indexes " + path(ia.X) + " directly"
